@@ -947,9 +947,11 @@ func (l *lexer) print(w ast.Word) string {
 
 func (l *lexer) scanToken() int {
 	var blank bool
-	if len(l.aliases) != 0 {
-		if a := l.aliases[len(l.aliases)-1]; a.value.Len() == 0 {
-			blank = a.blank
+	// the aliases whose values have just been used up
+	for i := len(l.aliases) - 1; i >= 0 && l.aliases[i].value.Len() == 0; i-- {
+		if l.aliases[i].blank {
+			blank = true
+			break
 		}
 	}
 Scan:
